@@ -468,6 +468,19 @@ Proof.
 Qed.
 Print Assumptions addfield_pool_any_schedule.
 
+(* AddFieldParallel2 (repaired by 913f893 / 924b580): the workers only compute one array of values per
+   (attribute, chunk) job; the calling goroutine adds the arrays into the canvas in the order in which they arrive on
+   the result channel.  For ANY arrival order every cell ends as after the sequential AddField. *)
+Theorem addfield_collector_any_arrival_order :
+  forall (K V : Type) (keqb : K -> K -> bool) (add : V -> V -> V),
+    (forall a b, keqb a b = true <-> a = b) ->
+  forall (jobs arrival : list (K * list (Z * V))) st,
+    NoDup (map fst jobs) -> Permutation arrival jobs ->
+    forall k c, run_canvas keqb add (List.concat (map job_steps arrival)) st k c
+                = run_canvas keqb add (List.concat (map job_steps jobs)) st k c.
+Proof. intros K V keqb add H. exact (ParRound4.addfield_collector_any_arrival_order keqb add H). Qed.
+Print Assumptions addfield_collector_any_arrival_order.
+
 (* The block list decides the result of a march: a block marched once more (seeded change C10-J sizes the job list
    by the canvas-wide block store, so block (0,0,0) is marched once per block of another attribute) or once less
    changes the triangle multiset, unless that block has no triangle. *)
